@@ -59,7 +59,7 @@ func ExplainGsub(fontInfo *sfnt.Font) string {
 						to:   []glyph.ID{key + l.Delta},
 					})
 				}
-				ee.explainSeqMappings(mappings)
+				ee.explainSeqMappings(mappings, true)
 
 			case *gtab.Gsub1_2:
 				checkType(1)
@@ -70,7 +70,7 @@ func ExplainGsub(fontInfo *sfnt.Font) string {
 						to:   []glyph.ID{l.SubstituteGlyphIDs[idx]},
 					})
 				}
-				ee.explainSeqMappings(mappings)
+				ee.explainSeqMappings(mappings, true)
 
 			case *gtab.Gsub2_1:
 				checkType(2)
@@ -111,7 +111,7 @@ func ExplainGsub(fontInfo *sfnt.Font) string {
 						})
 					}
 				}
-				ee.explainSeqMappings(mappings)
+				ee.explainSeqMappings(mappings, false)
 
 			case *gtab.SeqContext1:
 				checkType(5)
@@ -387,7 +387,10 @@ type mapping struct {
 	to   []glyph.ID
 }
 
-func (ee *explainer) explainSeqMappings(mm []mapping) {
+// explainSeqMappings writes a list of glyph sequence mappings.  Runs of
+// single glyph mappings are abbreviated as ranges if useRanges is set; the
+// ligature syntax of GSUB4 has no ranges.
+func (ee *explainer) explainSeqMappings(mm []mapping, useRanges bool) {
 	sort.SliceStable(mm, func(i, j int) bool {
 		return mm[i].from[0] < mm[j].from[0]
 	})
@@ -397,7 +400,7 @@ func (ee *explainer) explainSeqMappings(mm []mapping) {
 		ee.w.WriteString(sep)
 		sep = ", "
 
-		canRange := len(mm) > 2
+		canRange := useRanges && len(mm) > 2
 		for i := 1; canRange && i < len(mm); i++ {
 			if len(mm[i].from) != 1 || len(mm[i].to) != 1 {
 				canRange = false
